@@ -100,8 +100,11 @@ def main():
                 rc2, o2 = sh(["ninja", "-C", stock, "texelutiltest"], timeout=3600)
                 if rc2 != 0: st = "does-not-compile"
                 else:
-                    rc3, o3 = sh([os.path.join(stock, "texelutiltest"), "--gtest_filter=ProofGame*:ProofKernel*:CspSolver*:RevMoveGen*"], cwd=stock, timeout=3600)
-                    failed = re.findall(r"\[  FAILED  \] (\S+)", o3)
+                    try:
+                        rc3, o3 = sh([os.path.join(stock, "texelutiltest"), "--gtest_filter=ProofGame*:ProofKernel*:CspSolver*:RevMoveGen*"], cwd=stock, timeout=600)
+                    except subprocess.TimeoutExpired:
+                        rc3, o3 = 1, "[  FAILED  ] (hang>600s)"
+                    failed = re.findall(r"\[  FAILED  \] ([A-Za-z(]\S+)", o3)
                     st = "stock tests pass" if rc3 == 0 else "stock tests FAIL: " + ",".join(sorted(set(failed)))
             rows.append((name, caught + (" (failing input)" if has_input else " (no failing input)") if caught == "caught" else caught, first, st))
         finally:
